@@ -140,6 +140,12 @@ impl Http3Codec {
                 self.notify_writable_streams(streams);
                 Ok(None)
             }
+            QuicSocketEvent::ReadFinished(stream_id) => {
+                // Only the request direction has ended: wake the reader up to let it see
+                // the end of the stream, the response direction is ended by its writer
+                let _ = self.on_stream_readable(stream_id);
+                Ok(None)
+            }
             QuicSocketEvent::Close(stream_id) => {
                 let _ = self.on_stream_shutdown(stream_id, None);
                 Ok(None)
